@@ -15,6 +15,12 @@ CHECKS = {
              quick=dict(runs=250, budget=60), thorough=dict(budget=900), det_runs=40),
  "C03": dict(engine="chainsim", race=False, level="exploration", rule=_CHAINSIM_RULE, assumptions=_CHAINSIM_ASSUME, cpus=2,
              quick=dict(runs=200, budget=60), thorough=dict(budget=900), det_runs=40),
+ "C04": dict(engine="chainsim", race=False, level="fault_enumeration", cpus=2,
+             rule=(_CHAINSIM_RULE + "; crash profile: after the sampled workload finished on the in-memory store with a commit log, EVERY prefix n of its K database commits is a crash point "
+                   "(only the first n commits survive; stride sampling only when K>300), each followed by reopen + R1..R3, a seeded 40% additionally crash inside the recovery's own commits, "
+                   "a seeded 25% (and always n=K) re-deliver the whole world and compare with the uninterrupted result (R4)"),
+             assumptions=_CHAINSIM_ASSUME + ["crash granularity is the database commit (memdb): the store itself is assumed atomic and prefix-durable, which is property C05's subject; crashes inside ffldb's own commit protocol are exercised by storesim"],
+             quick=dict(runs=40, budget=90), thorough=dict(budget=900), det_runs=30),
  "C19": dict(engine="v2sim", race=False, level="exploration",
              rule=("one run = one BIP324 session between two endpoints over a harness-owned byte stream: mode (M1 real<->real, M2 real<->reference endpoint bip324ref with the real side in either role, "
                    "M3rr adversary between two real peers, M3ref adversary / misbehaving reference against a real peer), network magic, garbage length per side (weighted to 0,1,15,16,17,4094,4095), "
